@@ -136,6 +136,10 @@ func (s *Schema) compile() error {
 func (s *Schema) doCompile() error {
 	content := s.file.Content()
 
+	if len(content) == 0 {
+		return errors.NewDocumentError(s.file, errors.ErrEmptySchema)
+	}
+
 	if content[0] != '/' {
 		return s.newDocumentError(errors.ErrRegexUnexpectedStart, 0, content[0])
 	}
